@@ -81,12 +81,15 @@ def orderable(a, b):
 def gen_grid():
     """exhaustive boundary grid of single-clause conditions"""
     cases = []
-    num_goals = [0, 3, -2, 2.5, -0.75, 10]
-    tols = [None, 0, 0.5, -0.5, 1]
+    # small exact values, decimal values whose boundary sums are not exact, and large magnitudes (counters, epoch stamps)
+    num_goals = [0, 3, -2, 2.5, -0.75, 10, -9.1, 0.1, 1.1, 2000000000, 1700000000.0, -3000000000]
+    tols = [None, 0, 0.5, -0.5, 1, 0.3, 0.1, 1.5]
     for g in num_goals:
         for tol in tols:
             t = abs(tol or 0)
             states = sorted(set([g - t - 1, g - t - 0.25, g - t, g - t + 0.25, g, g + t - 0.25, g + t, g + t + 0.25, g + t + 1]))
+            if abs(g) > 1e6:       # next representable neighbours and small offsets far below 1e-9 * |g|
+                states = sorted(set(states + [g + 1, g - 1, g + 2, g - 2, g + t + 0.5, g - t - 0.5]))
             for op in OPS:
                 if tol is not None and op not in ("==", "!="):
                     continue
@@ -159,9 +162,21 @@ def build_batch(batch):
         if c["v1"] is not None:
             chg.append({"v": "put", "data": {"value": c["v1"]}, "dst": ".s%d" % i, "ctx": None})
         needs = [clause_need(cl, i) for cl in c["clauses"]]
-        framers.append(P.framer("q%d" % i, [
-            P.frame("a", [P.rec("q%d.a" % i, "precur"), P.go("b", needs)]),
-            P.frame("b", [P.rec("q%d.b" % i, "enter")])]))
+        mode = c.get("mode", "go")
+        if mode.endswith("let"):
+            # the same condition as an entry condition of frame b: the unconditional `go b` is attempted at every
+            # evaluation and admitted the first time the condition holds
+            frames = [P.frame("a", [P.rec("q%d.a" % i, "precur"), P.go("b", [])]),
+                      P.frame("b", [{"v": "let", "needs": needs}, P.rec("q%d.b" % i, "enter")])]
+        else:
+            frames = [P.frame("a", [P.rec("q%d.a" % i, "precur"), P.go("b", needs)]),
+                      P.frame("b", [P.rec("q%d.b" % i, "enter")])]
+        if mode.startswith("clone"):
+            # ... and the same frames in a moot framer that runs as a named clone under a host framer
+            framers.append(P.framer("mq%d" % i, frames, sched="moot"))
+            framers.append(P.framer("q%d" % i, [P.frame("h", [{"v": "aux", "aux": "mq%d" % i, "as": "k"}])]))
+        else:
+            framers.append(P.framer("q%d" % i, frames))
     drv = P.framer("drv", [P.frame("w", [{"v": "repeat", "n": CH}]),
                            P.frame("ch", chg + [{"v": "repeat", "n": K - CH + 1}]),
                            P.frame("fin", [{"v": "bid", "ctl": "stop", "who": ["all"], "ctx": None}])], order="front")
@@ -196,9 +211,9 @@ def worker(ctx, job):
         for e in res.trace:
             ctx.event()
             if e["tag"].endswith(".b") and e["ctx"] == "enter":
-                entered.setdefault(e["framer"], e["tick"])
+                entered.setdefault(e["tag"][:-2], e["tick"])
             if e["tag"].endswith(".a"):
-                evaluated.add(e["framer"])
+                evaluated.add(e["tag"][:-2])
         for i, c in enumerate(batch):
             name = "q%d" % i
             cond = P.render_needs([clause_need(cl, i) for cl in c["clauses"]])
@@ -217,6 +232,7 @@ def worker(ctx, job):
                     ctx.hit("indirect_goal")
             if len(c["clauses"]) > 1:
                 ctx.hit("conjunctions")
+            ctx.hit("mode_" + c.get("mode", "go"))
             if exp is not None:
                 ctx.hit("expected_true")
             else:
@@ -225,7 +241,7 @@ def worker(ctx, job):
             ctx.check(got == exp, "comparison-outcome/%s" % ("taken-but-false" if (got is not None and (exp is None or got < exp))
                                                               else "not-taken-but-true"),
                       "`go b if %s` with state %r (%r from tick %d), goal share %r: transition at tick %s, written comparison says %s"
-                      % (cond, c["v0"], c["v1"], CH, c["g"], got, exp),
+                      % (cond, c["v0"], c["v1"], CH, c["g"], got, exp) + (" [used as %s]" % c["mode"] if c.get("mode") else ""),
                       {"condition": cond, "case": c, "observed_tick": got, "expected_tick": exp, "ops": ops})
 
 
@@ -235,6 +251,12 @@ def run(ctx):
     ctx.exhaustive = False
     rnd = gen_random(ctx.rng, ctx.pick(1500, 30000))
     allc = grid + rnd
+    # where the condition is used: transition need / entry condition, in an ordinary framer / in a clone of a moot framer
+    modes = ["go", "go", "let", "clone-go", "clone-let"]
+    for j, c in enumerate(allc):
+        c["mode"] = modes[j % len(modes)] if not ctx.quick else modes[(j + ctx.seed) % len(modes)]
+    if not ctx.quick:       # thorough: every grid condition in every mode
+        allc = [dict(c, mode=m) for c in grid for m in ("go", "let", "clone-go", "clone-let")] + rnd
     B = 50
     batches = [allc[i:i + B] for i in range(0, len(allc), B)]
     n = 16
@@ -247,3 +269,5 @@ def run(ctx):
     ctx.floor("conjunctions", 200)
     ctx.floor("expected_true", 500)
     ctx.floor("expected_never", 500)
+    for m in ("go", "let", "clone-go", "clone-let"):
+        ctx.floor("mode_" + m, 300)
